@@ -1319,6 +1319,10 @@ func (e *Entry) ApplyDeviate(deviateOpts ...DeviateOpt) []error {
 							dp.RPC.Input = nil
 						case dp.RPC != nil && dp.RPC.Output == deviatedNode:
 							dp.RPC.Output = nil
+						case dp.Dir[deviatedNode.Name] != deviatedNode:
+							// A second "deviate not-supported" in this
+							// deviation: the node is already gone.
+							appendErr(fmt.Errorf("%s: node %s was already removed by deviate not-supported", Source(d.Node), d.DeviatedPath))
 						default:
 							dp.delete(deviatedNode.Name)
 						}
